@@ -103,6 +103,7 @@ type trPkg struct {
 	canPanic map[string]bool        // function key -> its translation returns Outcome (panic-aware units)
 	lits     map[string]*ast.FuncLit // lifted closures: "outer.name" -> literal
 	litOrder []string
+	strLits  []string // string literals that became definitions (panic-aware units)
 }
 
 type trSig struct {
@@ -1545,7 +1546,7 @@ func (f *trFn) expr(e ast.Expr) string {
 		case token.STRING:
 			c := eval(v, nil)
 			s, _ := constStr(c)
-			return leanBytesLit(s)
+			return f.p.strLit(s)
 		case token.CHAR:
 			c := eval(v, nil)
 			return c.ExactString()
@@ -1820,7 +1821,7 @@ func (f *trFn) expr(e ast.Expr) string {
 				trFail(v, "error text is not a constant")
 			}
 			text, _ := constStr(c)
-			return "(some " + leanBytesLit(text) + ")"
+			return "(some " + f.p.strLit(text) + ")"
 		}
 		trFail(v, "call of %s is not in the translated subset", fn)
 	}
@@ -1853,6 +1854,21 @@ func (f *trFn) isRegexpPtr(e ast.Expr) bool {
 }
 
 // leanBytesLit: a Go string constant as an explicit byte list (reduces in the kernel, unlike a run-time conversion)
+// strLit: a string literal inside a translated function; in panic-aware units the longer ones become definitions of
+// their own (`lit_k`), which keeps the function bodies small enough to reason about
+func (p *trPkg) strLit(text string) string {
+	if !p.unit.panics || len(text) <= 4 {
+		return leanBytesLit(text)
+	}
+	for i, t := range p.strLits {
+		if t == text {
+			return fmt.Sprintf("lit_%d", i)
+		}
+	}
+	p.strLits = append(p.strLits, text)
+	return fmt.Sprintf("lit_%d", len(p.strLits)-1)
+}
+
 func leanBytesLit(text string) string {
 	if text == "" {
 		return "([] : GoString)"
@@ -1892,7 +1908,7 @@ func (f *trFn) sprintf(v *ast.CallExpr) string {
 	var out []string
 	for i, p := range parts {
 		if p != "" {
-			out = append(out, leanBytesLit(p))
+			out = append(out, f.p.strLit(p))
 		}
 		if i+1 < len(parts) {
 			out = append(out, f.expr(v.Args[i+1]))
@@ -2271,12 +2287,17 @@ func translateUnit(u trUnit) (out string) {
 				trFail(nil, "cyclic struct dependencies in %s", u.pkgDir)
 			}
 		}
+		var fb strings.Builder
 		for _, v := range u.vars {
-			p.emitVar(&sb, v)
+			p.emitVar(&fb, v)
 		}
 		for _, key := range p.litOrder {
-			p.emitFunc(&sb, key)
+			p.emitFunc(&fb, key)
 		}
+		for i, t := range p.strLits {
+			fmt.Fprintf(&sb, "/-- %q -/\ndef lit_%d : GoString := %s\n\n", t, i, leanBytesLit(t))
+		}
+		sb.WriteString(fb.String())
 		fmt.Fprintf(&sb, "end Dtail.Gen.%s\n\n", u.ns)
 	}
 	return sb.String()
